@@ -519,9 +519,19 @@ def e2e_one(run: Run, h: int, r: int, seed: int, do_fuzz: bool) -> list[str]:
             return bad
         orig = ev.evaluate_individual
 
+        seen: set = set()
+
+        def canon(t):
+            # the harness's own notion of "the same tree" (symbols, parties, shape), independent of
+            # DerivationTree.__hash__ and of whatever key the evaluator uses for its caches
+            sym = t.symbol
+            return (type(sym).__name__, repr(getattr(sym, "_value", None) if hasattr(sym, "_value") else str(sym)),
+                    str(sym), t.sender, t.recipient, tuple(canon(c) for c in t._children))
+
         def wrapped(individual):
-            key = hash((individual.get_root(), individual))
-            first = key not in ev._fitness_cache
+            key = (canon(individual.get_root()), canon(individual))
+            first = key not in seen
+            seen.add(key)
             gen = orig(individual)
             yielded = 0
             try:
